@@ -22,7 +22,7 @@ ASSUMPTIONS = ['the molecule consensus is the C13 vote restricted to positions w
                'context letters: CG->z, C[ACT]G->x, C[ACT][ACT]->h, anything truncated by the contig end or containing a non-ACGT base -> "."']
 MIN_NONTRIVIAL = {'quick': 200, 'thorough': 25000}
 REQUIRED_MONITORS = ['obs:call_dict_entries', 'obs:reads_with_XM', 'ctx:z', 'ctx:x', 'ctx:h', 'ctx:upper', 'ctx:dot', 'edge:contig_end_calls',
-                     'strand:reverse', 'convention:F', 'convention:R', 'history:caller_reused_on_other_reference']
+                     'strand:reverse', 'convention:F', 'convention:R', 'history:caller_reused_on_other_reference', 'obs:reads_of_molecules_without_calls']
 SHARD_TIMEOUT = {'quick': 900, 'thorough': 5400}
 
 
@@ -90,6 +90,9 @@ def one_reference(case, acc, r, taps, rnd):
         acc.count(k, 0)
     expected_base = (('G' if reverse else 'C') if conv == 'F' else ('C' if reverse else 'G'))
     converted_to = 'T' if expected_base == 'C' else 'A'
+    if r.random() < 0.1:
+        # a stretch without any convertible base: the molecule has no call at all, its reads still get an all-'.' call string and zero totals
+        ref = ref.replace(expected_base, 'A')
     meth = {p for p, c in enumerate(ref) if c == expected_base and r.random() < 0.5}
     n = r.choice([1, 1, 2, 3, 4, 6])
     frags = []
@@ -197,8 +200,8 @@ def one_reference(case, acc, r, taps, rnd):
             totals = {'MC': cnt['Z'] + cnt['X'] + cnt['H'], 'uC': cnt['z'] + cnt['x'] + cnt['h'], 'sZ': cnt['Z'], 'sz': cnt['z'], 'sX': cnt['X'], 'sx': cnt['x'],
                       'sH': cnt['H'], 'sh': cnt['h']}
             for read in m.iter_reads():
-                if not exp and not read.has_tag('XM'):
-                    continue
+                if not exp:
+                    acc.count('obs:reads_of_molecules_without_calls')
                 acc.count('obs:reads_with_XM')
                 positions = [rp for qp, rp in read.get_aligned_pairs(matches_only=True)]
                 xm = read.get_tag('XM') if read.has_tag('XM') else None
